@@ -178,6 +178,16 @@ func readFrame(stream []byte, enc bool, rb uint64) (string, []byte) {
 	c := newBufConn(stream)
 	var out string
 	var payload []byte
+	// readMessage allocates the announced size before reading. The generator
+	// never announces more than a few hundred bytes under a VALID header
+	// checksum, so a header that the implementation's own decode accepts with a
+	// huge size means a corrupted header got through: report that instead of
+	// letting the runtime die on the allocation.
+	if len(stream) >= 20 && stream[0] == 0xAE && stream[1] == 0x7D {
+		if ok, _, sz, _ := hooks.DecodeHeader(append([]byte{}, stream[2:20]...)); ok && sz > 1<<26 {
+			return "header-accepted-with-huge-size", nil
+		}
+	}
 	p := vh.Catch(func() {
 		kind, m, sz, crc, buf := hooks.ReadFrame(c, 32, enc)
 		payload = buf
@@ -260,6 +270,9 @@ func runFrame(id string, f []string, line string, obs *vh.LineWriter, st *vh.Sta
 		}
 		if rd == "panic" {
 			st.Violation(id, "frame reader panicked")
+		}
+		if rd == "header-accepted-with-huge-size" {
+			st.Violation(id, "a corrupted header passed requestHeader.decode ("+tag+")")
 		}
 		st.Count("frame." + tag + "." + rd[:2])
 		st.Case(line, tag != "other", "")
